@@ -62,7 +62,8 @@ Cross(k) ==
   \* (an Error object carries the stack of its creation; for any other value the rethrow site is what the host sees)
   \* reflectWrap: a reflect-wrapped Go function that receives an *Exception from its callee and RETURNS a new Go error wrapping it
   \* (fmt.Errorf("%w")): script now sees a GoError for that new error; the chain of the final Exception still reaches the
-  \* inner Exception (and through it the original Go error, if there was one)
+  \* inner Exception (and through it the original Go error, if there was one); an uncatchable payload wrapped the same way stays
+  \* uncatchable (the host still finds the InterruptedError / StackOverflowError in the chain, no catch or finally sees it)
   /\ pl' = IF pl.cls = "catchable" /\ k = "jscatch" /\ pl.val # "err" THEN [pl EXCEPT !.site = "rethrown"]
             ELSE IF pl.cls = "catchable" /\ k = "reflectWrap" THEN [pl EXCEPT !.val = "goerr:rewrap", !.inner = pl.val, !.site = "go"]
             ELSE pl
